@@ -155,3 +155,9 @@ package dvid
 //@   prop C18
 //@   lemma
 //@   ensures err == nil && out.start[0] == in.start[0] && out.start[1] == in.start[1] && out.start[2] == in.start[2] && out.length == in.length
+
+// ---- unsafe helpers (trusted: they use reflect.SliceHeader / unsafe.Pointer) ----
+
+//@ func New8ByteAlignBytes
+//@   trusted
+//@   ensures fresh(result0) && fresh(result1) && len(result0) == int(numBytes)
